@@ -353,6 +353,15 @@ func runC09(c *Ctx) {
 			fn := p.Fn(w.short, w.name)
 			k := kindsOf(fn)
 			c.Ob("C09-D6", "jsonparser."+w.label+"/value-kinds", fn.Pos(), same(k.outer, ref.outer), fmt.Sprintf("%s tests the value kind against %s, deconstructValue against %s", w.label, show(k.outer), show(ref.outer)))
+			// closure: a container kind the walker descends into as a value (slice, struct, map) it must also descend into
+			// as the element of a slice, and so for the two indirections (F33: maps were missing)
+			var missing []string
+			for _, ck := range []reflect.Kind{reflect.Slice, reflect.Struct, reflect.Map, reflect.Ptr, reflect.Interface} {
+				if k.outer[int64(ck)] && !k.inner[int64(ck)] {
+					missing = append(missing, ck.String())
+				}
+			}
+			c.Ob("C09-D6", "jsonparser."+w.label+"/element-kinds-closed", fn.Pos(), len(missing) == 0, fmt.Sprintf("%s handles values of kind %s but does not descend into slice elements of kind %v: a Binary below such an element is not found (Encode then fails in the JSON marshaller, or the decoder leaves the placeholder)", w.label, show(k.outer), missing))
 			c.Ob("C09-D6", "jsonparser."+w.label+"/element-kinds", fn.Pos(), same(k.inner, ref.inner), fmt.Sprintf("%s descends into slices whose element kind is in %s, deconstructValue into %s: values reachable only through the missing kind are not seen by one of the walkers", w.label, show(k.inner), show(ref.inner)))
 		}
 	}
